@@ -98,4 +98,8 @@ def run(db, chk):
                            detail="; ".join(b1[:3]), sample=(n_sc % 23 == 0), extra={"unit": uname})
                     chk.ob("C02-F2", lab, not b2, where=tilt.ploc, function=tilt.bn, construct="tilt-level",
                            detail="; ".join(b2[:3]), sample=(n_sc % 23 == 1), extra={"unit": uname})
+    chk.absorb(db, "C09", {"C09-P2"}, "C02-F3", "the basin graph / resolver scratch state is reset at every "
+               "update (shared with C09-P2): stale passes of a previous call over-fill depressions",
+               pred=lambda o: "basin_graph" in o["instance"] or "mst_sink_resolver" in o["instance"],
+               min_instances=20)
     chk.count_scenarios(n_sc, True)
